@@ -21,3 +21,10 @@ claim(
     note="PyTorch autograd is the trusted base; low-precision dtypes only decide 'roughly the same scalar'; sampling, not proof.",
     design_ref="DESIGN.md section 4 C02",
 )
+claim(
+    "C03",
+    technique="Hypothesis over shapes; fitted scalars (C01/C02 probes) times term counts measured on the PyTorch reference op with all-ones operands must equal 1 (exact-arithmetic style invariant, tolerance 1e-9)",
+    text="Generated-input search over fan-in/fan-out/batch dims/broadcast patterns/conv geometry/vocabulary/p/tau: each forward and backward scale factor squared times the measured number of summed unit-variance terms equals 1 (linear_readout: scale x fan_in = 1), with the carve-outs of the statement (conv padding, interior positions, single-element operands, padding_idx).",
+    note="Term counts are measured on the reference op, not taken from a formula; sampling of shapes, not proof.",
+    design_ref="DESIGN.md section 4 C03",
+)
